@@ -845,6 +845,14 @@ func (s *shardController) SwapNode(from model.Server, to model.Server) error {
 
 func (s *shardController) swapNode(from model.Server, to model.Server, res chan error) {
 	s.shardMetadataMutex.Lock()
+	if !listContains(s.shardMetadata.Ensemble, from) || listContains(s.shardMetadata.Ensemble, to) {
+		// The proposal does not match the current ensemble (eg: it was computed on an older
+		// view of the shard): applying it would change the number of replicas
+		s.shardMetadataMutex.Unlock()
+		res <- errors.Errorf("cannot swap %s with %s: not applicable to the current ensemble",
+			from.GetIdentifier(), to.GetIdentifier())
+		return
+	}
 	// The list may still hold the nodes of earlier swaps whose election has failed. A node that
 	// joins the ensemble again must leave it, or its replica would be deleted after the election
 	removedNodes := make([]model.Server, 0, len(s.shardMetadata.RemovedNodes)+1)
